@@ -183,8 +183,9 @@ def S12(inp, n):
     cl['trimmed_entries_are_the_old_ones'] = And([so.has_entry(p.log, e[1], e[2]) for e in q.log])
     cl['indices_untouched'] = And(Eq(q.commit, p.commit), Eq(q.applied, p.commit))
     # load on another node
-    b, trb, consb = _mk(inp, 'z', ('a', 'b', 'q'), clock, dyn)      # q is not in the snapshot's member set
-    get(b, 'serializer')._Serializer__inMemorySerializedData = image
+    # the loading node: another member, or a read-only node (no id of its own: every member of the snapshot is a partner)
+    b, trb, consb = _mk(inp, None if inp.flag('loader_is_read_only') else 'z', ('a', 'b', 'q'), clock, dyn)      # q is not in the snapshot's member set
+    get(b, 'serializer')._Serializer__incomingTransmissionData = image          # completely received, about to be looked at
     b.x, b.items = -77, ['stale']
     tb = inp.int('loader_term', 0, 5)
     put(b, 'raftCurrentTerm', tb); put(b, 'votedForNodeId', 'q')
@@ -267,7 +268,7 @@ def S4(inp, chunks, event, lose=False, observer=False):
     real_load = getattr(fol, so.P + 'loadDumpFile')
 
     def spy_load(clearJournal):
-        installed.append(get(fol, 'serializer')._Serializer__inMemorySerializedData)
+        installed.append(get(fol, 'serializer')._Serializer__incomingTransmissionData)
         # emulate the effect of a successful load (the decode of an abstract image is outside this obligation)
         so.set_log(fol, [(so.NOOP, 4, 1), (so.NOOP, 5, 1)])
         put(fol, 'raftLastApplied', 5)
@@ -376,6 +377,8 @@ def S5(inp, mode):
             r1, exc = guard(s.setTransmissionData, (c1, True, False)) if exc is None else (None, exc)
             r2, exc = guard(s.setTransmissionData, (c2, False, False)) if exc is None else (None, exc)
             r3, exc = guard(s.setTransmissionData, (Blob(), False, True)) if exc is None else (None, exc)
+            if exc is None and r3:
+                _, exc = guard(s.acceptTransmission)          # the caller installs it
             if parent_os.alive:
                 child = ser_mod.Serializer('dump', 3, True, None, None, None)
                 ser_mod.os = _OsFork(True)
@@ -393,6 +396,8 @@ def S5(inp, mode):
                 s.checkSerializing()
             r2, exc = guard(s.setTransmissionData, (c2, False, False)) if exc is None else (None, exc)
             r3, exc = guard(s.setTransmissionData, (Blob(), False, True)) if exc is None else (None, exc)
+            if exc is None and r3:
+                _, exc = guard(s.acceptTransmission)          # the caller installs it
         nprim = len(fs.log)
         cut = inp.choice('cut', nprim + 1)
         files = fs.snapshot(cut)
@@ -537,9 +542,11 @@ def RI(inp, n):
     def set_tx(data):
         ok = real_set(data)
         if ok:
-            ser._Serializer__inMemorySerializedData = image
+            ser._Serializer__incomingTransmissionData = image
         return ok
     ser.setTransmissionData = set_tx
+    own_stored = Token(('this node\'s own stored snapshot',))
+    ser._Serializer__inMemorySerializedData = own_stored
     corrupt = inp.flag('image_cannot_be_decoded')
     if corrupt:
         image = Blob.fresh(('garbage',), 5)          # e.g. chunks of two different snapshots glued together
@@ -582,7 +589,6 @@ def RI(inp, n):
         # the acknowledgement names an index up to which the log is known to equal the leader's (matchIndex soundness), and lies
         # above the snapshot (otherwise the leader sends the same snapshot for ever)
         cl['stale_snapshot_acknowledged_at_match'] = Implies(stale, len(acks) == 1 and And(acks[0]['next_node_idx'] - 1 <= Max(p.commit, d), acks[0]['next_node_idx'] >= d + 1))
-        cl['stale_snapshot_renews_stored_snapshot'] = Implies(stale, get(o, 'forceLogCompaction') is True)
         cl['indices_do_not_move_backwards'] = And(q.applied >= p.applied, q.commit >= p.commit)
         cl['commit_within_log'] = And(q.commit <= q.log[-1][1], q.commit >= q.applied)
     else:
@@ -590,14 +596,13 @@ def RI(inp, n):
                                                          Eq(q.commit, p.commit), len(acks) == 0, Eq(o.x, -1))
     cl['follows_the_sender'] = And(q.role == F, q.leader == Node('b'), Eq(q.term, mterm))
     if started and exc is None:
-        # the received file replaced this node's stored snapshot.  After the next compaction attempt the stored snapshot again reaches
-        # this node's first log entry, otherwise, as a leader, it could serve neither entries nor a usable snapshot (C05)
-        _, exc_c = guard(getattr(o, so.P + 'tryLogCompaction'))
+        # C06/C09: only a snapshot that is installed becomes the stored one - a stale or unreadable one must not replace this node's
+        # (newer) stored snapshot, not even until the next compaction: a kill in between would restart the node behind its own log
         stored = ser._Serializer__inMemorySerializedData
-        q2 = so.post_state(o)
-        can = q.applied - 1 >= q.log[0][1]
-        usable = isinstance(stored, Token) and stored.obj[1][1] + 1 >= q2.log[0][1]
-        cl['stored_snapshot_usable_after_next_compaction'] = And(exc_c is None, Implies(can, usable))
+        if corrupt:
+            cl['stored_snapshot_kept_unless_installed'] = stored is own_stored
+        else:
+            cl['stored_snapshot_kept_unless_installed'] = And(Implies(stale, stored is own_stored), Implies(Not(stale), stored is image))
     return Res(cl, nontrivial=started, obs=lambda: dict(started=started, corrupt=corrupt, log=show(q.log), applied=show(q.applied), commit=show(q.commit), x=show(o.x), exc=show(exc)))
 
 
@@ -718,8 +723,8 @@ def PGC(inp, bl, ll, bf, lf):
     lser._Serializer__inMemorySerializedData = img
     decoded = []
 
-    def decode():
-        got = Blob.coerce(fser._Serializer__inMemorySerializedData)
+    def decode(incoming=False):
+        got = Blob.coerce(fser._Serializer__incomingTransmissionData if incoming else fser._Serializer__inMemorySerializedData)
         decoded.append(bool(got.whole(('image', 1), 3)))
         return (None, (so.NOOP, bl + 1, lt[bl + 1]), (so.NOOP, bl, lt[bl]), set([a, b]))
     fser.deserialize = decode
